@@ -1,5 +1,493 @@
+/-
+  Lemmas/Opener.lean — helper lemmas for property C02 (the built-in openers trip exactly on their documented
+  threshold).  Core Lean only.
+-/
 import CircuitModel.OpenerOps
 import CircuitModel.CircuitOps
 import CircuitProofs.Lemmas.RC
 namespace CM
+open SpecC13 SpecC02
+
+/-! ### running an opener -/
+
+theorem oexec_cons (s : OState) (op : OOp) (ops : List OOp) :
+    oexec s (op :: ops) = oexec (ostep s op).1 ops := rfl
+
+theorem oexec_nil (s : OState) : oexec s [] = s := rfl
+
+/-! ### bucket indices are monotone in time -/
+
+theorem absIdx_mono {w d t : Int} (hw : 0 < w) (h : d ≤ t) : absIdx w d ≤ absIdx w t := by
+  unfold absIdx
+  exact Int.toNat_le_toNat (Int.ediv_le_ediv hw h)
+
+/-- newest bucket index presented by an opener history (the analogue of `SpecC13.hi`) -/
+def ohi (w : Int) : List OOp → Nat
+  | [] => 0
+  | op :: h =>
+    match op.time with
+    | some d => if d < 0 then ohi w h else max (absIdx w d) (ohi w h)
+    | none => ohi w h
+
+theorem ohi_cons_time (w : Int) (h : List OOp) (op : OOp) (d : Int) (ht : op.time = some d) :
+    ohi w (op :: h) = if d < 0 then ohi w h else max (absIdx w d) (ohi w h) := by
+  simp only [ohi, ht]
+
+theorem ohi_cons_none (w : Int) (h : List OOp) (op : OOp) (ht : op.time = none) :
+    ohi w (op :: h) = ohi w h := by
+  simp only [ohi, ht]
+
+theorem ohi_le_cons (w : Int) (h : List OOp) (op : OOp) : ohi w h ≤ ohi w (op :: h) := by
+  cases ht : op.time with
+  | none => rw [ohi_cons_none w h op ht]; exact Nat.le_refl _
+  | some d => rw [ohi_cons_time w h op d ht]; split <;> omega
+
+/-- in a history all of whose times are `≤ t`, no bucket is newer than the bucket of `t` -/
+theorem ohi_le_of_all {w : Int} (hw : 0 < w) (t : Int) : ∀ h : List OOp,
+    (h.all fun o => match o.time with | some t' => decide (t' ≤ t) | none => true) = true →
+    ohi w h ≤ absIdx w t
+  | [], _ => Nat.zero_le _
+  | op :: h, hall => by
+    rw [List.all_cons, Bool.and_eq_true] at hall
+    have ih := ohi_le_of_all hw t h hall.2
+    cases ht : op.time with
+    | none => rw [ohi_cons_none w h op ht]; exact ih
+    | some d =>
+      have hd : d ≤ t := by simpa [ht] using hall.1
+      have := absIdx_mono hw hd
+      rw [ohi_cons_time w h op d ht]; split <;> omega
+
+/-! ### one counter of the hystrix opener against the opener history -/
+
+/-- times of the events since the last transition whose kind is selected, newest first -/
+def evs (sel : Kind → Bool) (h : List OOp) : List Int :=
+  ((sinceTransition h).filter (fun p => sel p.1)).map (·.2)
+
+theorem evs_ev (sel : Kind → Bool) (h : List OOp) (k : Kind) (t : Int) :
+    evs sel (.ev k t :: h) = if sel k then t :: evs sel h else evs sel h := by
+  unfold evs
+  by_cases hs : sel k = true <;> simp [sinceTransition, hs]
+
+theorem evs_opened (sel : Kind → Bool) (h : List OOp) (t : Int) : evs sel (.opened t :: h) = [] := rfl
+theorem evs_closed (sel : Kind → Bool) (h : List OOp) (t : Int) : evs sel (.closed t :: h) = [] := rfl
+theorem evs_should (sel : Kind → Bool) (h : List OOp) (t : Int) : evs sel (.should t :: h) = evs sel h := rfl
+theorem evs_cfgH (sel : Kind → Bool) (h : List OOp) (p v : Int) : evs sel (.cfgH p v :: h) = evs sel h := rfl
+theorem evs_cfgC (sel : Kind → Bool) (h : List OOp) (t : Int) : evs sel (.cfgC t :: h) = evs sel h := rfl
+
+/-- the counter `c` has been driven by some counter history whose live increments are exactly the selected
+    events of the opener history `h` since the last transition, and which never saw a newer bucket than `h` did -/
+def CInv (n : Nat) (w : Int) (sel : Kind → Bool) (c : RC) (h : List OOp) : Prop :=
+  ∃ hc, Inv n w c hc ∧ live hc = evs sel h ∧ hi w hc ≤ ohi w h
+
+theorem CInv.new (n : Nat) (w : Int) (hn : 0 < n) (sel : Kind → Bool) : CInv n w sel (RC.new n w) [] :=
+  ⟨[], Inv.new n w hn, rfl, Nat.le_refl _⟩
+
+/-- the counter is not touched and the new op selects no event -/
+theorem CInv.skip {n : Nat} {w : Int} {sel : Kind → Bool} {c : RC} {h : List OOp}
+    (I : CInv n w sel c h) (op : OOp) (he : evs sel (op :: h) = evs sel h) : CInv n w sel c (op :: h) := by
+  obtain ⟨hc, I, hl, hh⟩ := I
+  exact ⟨hc, I, by rw [hl, he], Nat.le_trans hh (ohi_le_cons w h op)⟩
+
+theorem CInv.inc {n : Nat} {w : Int} {sel : Kind → Bool} {c : RC} {h : List OOp} (hn : 0 < n)
+    (I : CInv n w sel c h) (k : Kind) (t : Int) (hs : sel k = true) :
+    CInv n w sel (c.inc t) (.ev k t :: h) := by
+  obtain ⟨hc, I, hl, hh⟩ := I
+  refine ⟨.inc t :: hc, I.inc hn t, ?_, ?_⟩
+  · rw [evs_ev, if_pos hs, ← hl]; rfl
+  · rw [hi_cons_time w hc (.inc t) t rfl, ohi_cons_time w h (.ev k t) t rfl]
+    split <;> omega
+
+theorem CInv.reset {n : Nat} {w : Int} {sel : Kind → Bool} {c : RC} {h : List OOp} (hn : 0 < n)
+    (I : CInv n w sel c h) (op : OOp) (t : Int) (ht : op.time = some t) (he : evs sel (op :: h) = []) :
+    CInv n w sel (c.reset t) (op :: h) := by
+  obtain ⟨hc, I, _, hh⟩ := I
+  refine ⟨.reset t :: hc, I.reset hn t, ?_, ?_⟩
+  · rw [he]; rfl
+  · rw [hi_cons_time w hc (.reset t) t rfl, ohi_cons_time w h op t ht]
+    split <;> omega
+
+theorem CInv.sumAt {n : Nat} {w : Int} {sel : Kind → Bool} {c : RC} {h : List OOp} (hn : 0 < n)
+    (I : CInv n w sel c h) (t : Int) : CInv n w sel (c.sumAt t).1 (.should t :: h) := by
+  obtain ⟨hc, I, hl, hh⟩ := I
+  refine ⟨.sum t :: hc, I.advance hn (.sum t) t rfl rfl rfl, ?_, ?_⟩
+  · rw [evs_should, ← hl]; rfl
+  · rw [hi_cons_time w hc (.sum t) t rfl, ohi_cons_time w h (.should t) t rfl]
+    split <;> omega
+
+/-- the window count of the spec, on the list of events since the last transition -/
+theorem win_evs (n : Nat) (w : Int) (sel : Kind → Bool) (L : Nat) (l : List (Kind × Int)) :
+    win n ((((l.filter (fun p => sel p.1)).map (·.2)).filter (fun d => decide (0 ≤ d))).map (absIdx w)) L
+      = ((l.filter fun (k, d) => sel k && decide (0 ≤ d) && decide (absIdx w d + n > L)).length : Int) := by
+  induction l with
+  | nil => rfl
+  | cons p l ih =>
+    obtain ⟨k, d⟩ := p
+    by_cases hs : sel k = true
+    · by_cases hd : 0 ≤ d
+      · by_cases hL : absIdx w d + n > L
+        · simp [hs, hd, hL, win_cons, ih]
+        · simp [hs, hd, hL, win_cons, ih]
+      · simp [hs, hd, ih]
+    · simp [hs, ih]
+
+/-- what the counter answers when asked at a time that is not before anything it has seen -/
+theorem CInv.read {n : Nat} {w : Int} {sel : Kind → Bool} {c : RC} {h : List OOp} (hn : 0 < n)
+    (I : CInv n w sel c h) (t : Int) (ht : 0 ≤ t) (hb : ohi w h ≤ absIdx w t) :
+    (c.sumAt t).2 = windowCount n w h t sel := by
+  obtain ⟨hc, I, hl, hh⟩ := I
+  have I' := I.advance hn (.sum t) t rfl rfl rfl
+  show (c.advance t).1.rolling = _
+  rw [I'.rel.roll, I'.last, hi_cons_time w hc (.sum t) t rfl, if_neg (by omega), counted_sum]
+  have hm : max (absIdx w t) (hi w hc) = absIdx w t := by omega
+  rw [hm]
+  unfold counted
+  rw [hl]
+  exact win_evs n w sel (absIdx w t) (sinceTransition h)
+
+/-! ### the hystrix opener -/
+
+theorem HOpener.shouldOpen_fst (o : HOpener) (t : Int) :
+    (o.shouldOpen t).1.pct = o.pct ∧ (o.shouldOpen t).1.vol = o.vol ∧
+    (o.shouldOpen t).1.attempts = (o.attempts.sumAt t).1 ∧
+    ((o.shouldOpen t).1.errors = o.errors ∨ (o.shouldOpen t).1.errors = (o.errors.sumAt t).1) := by
+  unfold HOpener.shouldOpen
+  simp only
+  split
+  · exact ⟨rfl, rfl, rfl, Or.inl rfl⟩
+  · exact ⟨rfl, rfl, rfl, Or.inr rfl⟩
+
+theorem HOpener.shouldOpen_snd (o : HOpener) (t : Int) :
+    (o.shouldOpen t).2 =
+      if (o.attempts.sumAt t).2 = 0 ∨ (o.attempts.sumAt t).2 < o.vol then false
+      else decide ((o.errors.sumAt t).2 * 100 ≥ o.pct * (o.attempts.sumAt t).2) := by
+  unfold HOpener.shouldOpen
+  simp only
+  split <;> rfl
+
+/-- the opener state `o` represents the opener history `h` (newest first) -/
+structure HInv (n : Nat) (w pct0 vol0 : Int) (o : HOpener) (h : List OOp) : Prop where
+  pct : o.pct = (thresholds pct0 vol0 h).1
+  vol : o.vol = (thresholds pct0 vol0 h).2
+  att : CInv n w counts o.attempts h
+  err : CInv n w isErr o.errors h
+
+theorem HInv.new (n : Nat) (dur pct vol : Int) (hn : 0 < n) :
+    HInv n (tdiv dur n) pct vol (HOpener.new n dur pct vol) [] :=
+  ⟨rfl, rfl, CInv.new n _ hn counts, CInv.new n _ hn isErr⟩
+
+theorem HInv.step {n : Nat} {w pct0 vol0 : Int} {o : HOpener} {h : List OOp} (hn : 0 < n)
+    (I : HInv n w pct0 vol0 o h) (op : OOp) :
+    ∃ o', (ostep (.hystrix o) op).1 = .hystrix o' ∧ HInv n w pct0 vol0 o' (op :: h) := by
+  cases op with
+  | ev k t =>
+    refine ⟨o.onRun k t 0, rfl, ?_⟩
+    cases k with
+    | success => exact ⟨I.pct, I.vol, I.att.inc hn .success t rfl, I.err.skip _ (by rw [evs_ev]; rfl)⟩
+    | failure => exact ⟨I.pct, I.vol, I.att.inc hn .failure t rfl, I.err.inc hn .failure t rfl⟩
+    | timeout => exact ⟨I.pct, I.vol, I.att.inc hn .timeout t rfl, I.err.inc hn .timeout t rfl⟩
+    | badRequest => exact ⟨I.pct, I.vol, I.att.skip _ (by rw [evs_ev]; rfl), I.err.skip _ (by rw [evs_ev]; rfl)⟩
+    | interrupt => exact ⟨I.pct, I.vol, I.att.skip _ (by rw [evs_ev]; rfl), I.err.skip _ (by rw [evs_ev]; rfl)⟩
+    | reject => exact ⟨I.pct, I.vol, I.att.skip _ (by rw [evs_ev]; rfl), I.err.skip _ (by rw [evs_ev]; rfl)⟩
+    | shortCircuit => exact ⟨I.pct, I.vol, I.att.skip _ (by rw [evs_ev]; rfl), I.err.skip _ (by rw [evs_ev]; rfl)⟩
+  | opened t =>
+    exact ⟨o.resetBoth t, rfl, I.pct, I.vol, I.att.reset hn _ t rfl rfl, I.err.reset hn _ t rfl rfl⟩
+  | closed t =>
+    exact ⟨o.resetBoth t, rfl, I.pct, I.vol, I.att.reset hn _ t rfl rfl, I.err.reset hn _ t rfl rfl⟩
+  | should t =>
+    obtain ⟨h1, h2, h3, h4⟩ := HOpener.shouldOpen_fst o t
+    refine ⟨(o.shouldOpen t).1, rfl, by rw [h1]; exact I.pct, by rw [h2]; exact I.vol, ?_, ?_⟩
+    · rw [h3]; exact I.att.sumAt hn t
+    · rcases h4 with h4 | h4
+      · rw [h4]; exact I.err.skip _ rfl
+      · rw [h4]; exact I.err.sumAt hn t
+  | cfgH p v =>
+    exact ⟨{ o with pct := p, vol := v }, rfl, rfl, rfl, I.att.skip _ rfl, I.err.skip _ rfl⟩
+  | cfgC t =>
+    exact ⟨o, rfl, I.pct, I.vol, I.att.skip _ rfl, I.err.skip _ rfl⟩
+
+theorem HInv.exec {n : Nat} {w pct0 vol0 : Int} (hn : 0 < n) : ∀ (ops : List OOp) (o : HOpener) (h : List OOp),
+    HInv n w pct0 vol0 o h →
+    ∃ o', oexec (.hystrix o) ops = .hystrix o' ∧ HInv n w pct0 vol0 o' (ops.reverse ++ h)
+  | [], o, h, I => ⟨o, rfl, I⟩
+  | op :: ops, o, h, I => by
+    obtain ⟨o1, e1, I1⟩ := I.step hn op
+    obtain ⟨o2, e2, I2⟩ := HInv.exec hn ops o1 (op :: h) I1
+    refine ⟨o2, by rw [oexec_cons, e1, e2], ?_⟩
+    rw [List.reverse_cons, List.append_assoc]
+    exact I2
+
+/-- the answer of the model in a state representing `h`, asked at a time not before anything in `h` -/
+theorem HInv.answer {n : Nat} {w pct0 vol0 : Int} {o : HOpener} {h : List OOp} (hn : 0 < n)
+    (I : HInv n w pct0 vol0 o h) (t : Int) (ht : 0 ≤ t) (hb : ohi w h ≤ absIdx w t) :
+    (o.shouldOpen t).2 = hystrixShould n w pct0 vol0 h t := by
+  rw [HOpener.shouldOpen_snd, I.att.read hn t ht hb, I.err.read hn t ht hb, I.pct, I.vol]
+  unfold hystrixShould
+  simp only
+  generalize windowCount n w h t counts = a
+  generalize windowCount n w h t isErr = e
+  generalize (thresholds pct0 vol0 h).1 = p
+  generalize (thresholds pct0 vol0 h).2 = v
+  by_cases h1 : a = 0 ∨ a < v
+  · rw [if_pos h1]
+    symm
+    rw [decide_eq_false_iff_not]
+    omega
+  · rw [if_neg h1]
+    have e1 : e * 100 = 100 * e := Int.mul_comm _ _
+    rw [e1]
+    by_cases h2 : 100 * e ≥ p * a
+    · rw [decide_eq_true h2]; symm; rw [decide_eq_true_iff]; exact ⟨by omega, by omega, h2⟩
+    · rw [decide_eq_false h2]; symm; rw [decide_eq_false_iff_not]; exact fun h => h2 h.2.2
+
+/-! ### the consecutive-errors opener -/
+
+theorem consec_step (thr : Int) (h : List OOp) (op : OOp) :
+    (ostep (.consec { count := trailingErrors (sinceTransition h), threshold := consecThreshold thr h }) op).1
+      = .consec { count := trailingErrors (sinceTransition (op :: h)), threshold := consecThreshold thr (op :: h) } := by
+  cases op with
+  | ev k t => cases k <;> rfl
+  | opened t => rfl
+  | closed t => rfl
+  | should t => rfl
+  | cfgH p v => rfl
+  | cfgC t => rfl
+
+theorem consec_exec (thr : Int) : ∀ (ops : List OOp) (h : List OOp),
+    oexec (.consec { count := trailingErrors (sinceTransition h), threshold := consecThreshold thr h }) ops
+      = .consec { count := trailingErrors (sinceTransition (ops.reverse ++ h)),
+                  threshold := consecThreshold thr (ops.reverse ++ h) }
+  | [], _ => rfl
+  | op :: ops, h => by
+    rw [oexec_cons, consec_step, consec_exec thr ops (op :: h), List.reverse_cons, List.append_assoc]
+    rfl
+
+/-! ### circuit level: a closed circuit opens exactly when the opener says so -/
+
+section
+open SpecCircuit
+variable {σo σc : Type} (O : OpenerI σo) (C : CloserI σc)
+
+theorem isOpenEff_eq (c : Circ σo σc) (hfo : c.cfg.forceOpen = false) (hfc : c.cfg.forcedClosed = false) :
+    isOpenEff c = c.isOpen := by
+  simp [isOpenEff, hfo, hfc]
+
+theorem attemptToOpen_spec (s : St σo σc) (t : Int) (hfo : s.1.cfg.forceOpen = false)
+    (hfc : s.1.cfg.forcedClosed = false) (hcl : s.1.isOpen = false) :
+    (attemptToOpen O C s t).1.isOpen = (O.shouldOpen s.1.opener t).2 ∧
+    ((attemptToOpen O C s t).1.isOpen = true → Emit.opened t ∈ (attemptToOpen O C s t).2.emits) := by
+  have he : isOpenEff s.1 = false := by rw [isOpenEff_eq s.1 hfo hfc, hcl]
+  unfold attemptToOpen
+  rw [if_neg (by simp [hfc]), if_neg (by simp [he])]
+  cases h : O.shouldOpen s.1.opener t with
+  | mk o ans =>
+    cases ans with
+    | false => simp [hcl]
+    | true => simp [openCircuit, isOpenEff, hfo, hfc, hcl]
+
+/-- the failure / timeout branches of the classification chain: tell everyone, then ask the opener -/
+theorem errBranch_spec (s : St σo σc) (k : Kind) (t total : Int) (hfo : s.1.cfg.forceOpen = false)
+    (hfc : s.1.cfg.forcedClosed = false) (hcl : s.1.isOpen = false) :
+    let s' := emitRun O C s k t total
+    let r := if !isOpenEff s'.1 then attemptToOpen O C s' t else s'
+    r.1.isOpen = (O.shouldOpen (O.onRun s.1.opener k t total) t).2 ∧
+    (r.1.isOpen = true → Emit.opened t ∈ r.2.emits) := by
+  intro s' r
+  have hfo' : s'.1.cfg.forceOpen = false := hfo
+  have hfc' : s'.1.cfg.forcedClosed = false := hfc
+  have hcl' : s'.1.isOpen = false := hcl
+  have he : isOpenEff s'.1 = false := by rw [isOpenEff_eq s'.1 hfo' hfc', hcl']
+  have hr : r = attemptToOpen O C s' t := by simp [r, he]
+  rw [hr]
+  exact attemptToOpen_spec O C s' t hfo' hfc' hcl'
+
+def isBadRet (ret : Option ErrV) : Bool := match ret with | some e => e.isBad | none => false
+
+/-- the kind the classification chain reports -/
+def classKind (cfg : LiveCfg) (ctx : CallerCtx) (sc : Script) (ret : Option ErrV) (start doneT : Int) : Kind :=
+  if isBadRet ret then .badRequest
+  else if cfg.timeout > 0 ∧ start + cfg.timeout < doneT then .timeout
+  else if ret.isSome && (ctxErrAfter ctx sc).isSome && !cfg.ignoreInterrupts &&
+      (match ctxErrAfter ctx sc with | some e => cfg.iei.verdict e | none => false) then .interrupt
+  else if ret.isSome then .failure
+  else .success
+
+theorem classify_eq (s : St σo σc) (ctx : CallerCtx) (sc : Script) (ret : Option ErrV) (start : Int) :
+    classify O C s ctx sc ret start =
+      (let s2 : St σo σc := (now (now s).2).2
+       let doneT := s.1.clock + 1
+       let total := s.1.clock - start
+       if isBadRet ret then emitRun O C s2 .badRequest doneT total
+       else if s.1.cfg.timeout > 0 ∧ start + s.1.cfg.timeout < doneT then
+         let s' := emitRun O C s2 .timeout doneT total
+         if !isOpenEff s'.1 then attemptToOpen O C s' doneT else s'
+       else if ret.isSome && (ctxErrAfter ctx sc).isSome && !s.1.cfg.ignoreInterrupts &&
+           (match ctxErrAfter ctx sc with | some e => s.1.cfg.iei.verdict e | none => false) then
+         emitRun O C s2 .interrupt doneT total
+       else if ret.isSome then
+         let s' := emitRun O C s2 .failure doneT total
+         if !isOpenEff s'.1 then attemptToOpen O C s' doneT else s'
+       else
+         let s' := emitRun O C s2 .success doneT total
+         if isOpenEff s'.1 then closeCircuit O C s' doneT false else s') := rfl
+
+theorem not_open_spec {r : St σo σc} {k : Kind} {P Q : Prop} (hf : r.1.isOpen = false)
+    (hk : k ≠ .failure ∧ k ≠ .timeout) :
+    (r.1.isOpen = true ↔ ((k = .failure ∨ k = .timeout) ∧ P)) ∧ (r.1.isOpen = true → Q) := by
+  rw [hf]
+  refine ⟨⟨fun h => (by cases h), fun h => ?_⟩, fun h => (by cases h)⟩
+  rcases h.1 with h | h
+  · exact absurd h hk.1
+  · exact absurd h hk.2
+
+theorem classify_spec (s : St σo σc) (ctx : CallerCtx) (sc : Script) (ret : Option ErrV) (start : Int)
+    (hfo : s.1.cfg.forceOpen = false) (hfc : s.1.cfg.forcedClosed = false) (hcl : s.1.isOpen = false) :
+    let doneT := s.1.clock + 1
+    let total := s.1.clock - start
+    let k := classKind s.1.cfg ctx sc ret start doneT
+    let r := classify O C s ctx sc ret start
+    (r.1.isOpen = true ↔
+      ((k = .failure ∨ k = .timeout) ∧ (O.shouldOpen (O.onRun s.1.opener k doneT total) doneT).2 = true)) ∧
+    (r.1.isOpen = true → Emit.opened doneT ∈ r.2.emits) := by
+  intro doneT total k r
+  let s2 : St σo σc := (now (now s).2).2
+  have hfo2 : s2.1.cfg.forceOpen = false := hfo
+  have hfc2 : s2.1.cfg.forcedClosed = false := hfc
+  have hcl2 : s2.1.isOpen = false := hcl
+  have hr0 : r = classify O C s ctx sc ret start := rfl
+  have hk0 : k = classKind s.1.cfg ctx sc ret start doneT := rfl
+  rw [classify_eq] at hr0
+  simp only [classKind] at hk0
+  simp only at hr0
+  by_cases h1 : isBadRet ret = true
+  · rw [if_pos h1] at hr0 hk0
+    rw [hr0, hk0]
+    exact not_open_spec hcl ⟨by decide, by decide⟩
+  · rw [if_neg h1] at hr0 hk0
+    by_cases h2 : s.1.cfg.timeout > 0 ∧ start + s.1.cfg.timeout < doneT
+    · rw [if_pos h2] at hr0 hk0
+      obtain ⟨e1, e2⟩ := errBranch_spec O C s2 .timeout doneT total hfo2 hfc2 hcl2
+      rw [hr0, hk0]
+      refine ⟨?_, e2⟩
+      rw [e1]
+      exact ⟨fun h => ⟨Or.inr rfl, h⟩, fun h => h.2⟩
+    · rw [if_neg h2] at hr0 hk0
+      by_cases h3 : (ret.isSome && (ctxErrAfter ctx sc).isSome && !s.1.cfg.ignoreInterrupts &&
+           (match ctxErrAfter ctx sc with | some e => s.1.cfg.iei.verdict e | none => false)) = true
+      · rw [if_pos h3] at hr0 hk0
+        rw [hr0, hk0]
+        exact not_open_spec hcl ⟨by decide, by decide⟩
+      · rw [if_neg h3] at hr0 hk0
+        by_cases h4 : ret.isSome = true
+        · rw [if_pos h4] at hr0 hk0
+          obtain ⟨e1, e2⟩ := errBranch_spec O C s2 .failure doneT total hfo2 hfc2 hcl2
+          rw [hr0, hk0]
+          refine ⟨?_, e2⟩
+          rw [e1]
+          exact ⟨fun h => ⟨Or.inl rfl, h⟩, fun h => h.2⟩
+        · rw [if_neg h4] at hr0 hk0
+          have he : isOpenEff (emitRun O C s2 .success doneT total).1 = false := by
+            rw [isOpenEff_eq (emitRun O C s2 .success doneT total).1 hfo2 hfc2]; exact hcl2
+          rw [he] at hr0
+          rw [hr0, hk0]
+          exact not_open_spec hcl ⟨by decide, by decide⟩
+
+theorem runStep_allowed_gen (s s1 : St σo σc) (start : Int) (o : σo) (ctx : CallerCtx) (sc : Script)
+    (hn : now s = (start, s1)) (h1 : allowNewRun C s1 start = (s1, true))
+    (h2 : O.prevent s1.1.opener start = (o, false))
+    (hthr : ¬ (s1.1.cfg.maxConc ≥ 0 ∧ s1.1.conc + 1 > s1.1.cfg.maxConc)) (hnp : ∀ v, sc.act ≠ .panic v) :
+    let s3 : St σo σc := ({ s1.1 with opener := o, conc := s1.1.conc + 1, clock := s1.1.clock + sc.adv },
+      { s1.2 with runSeen := some (derivedSeen s1.1.cfg ctx start) })
+    let ret := actValue sc (ctxErrAfter ctx sc)
+    let s4 := classify O C s3 ctx sc ret start
+    let r := runStep O C s ctx (some sc)
+    r.1.1.isOpen = s4.1.isOpen ∧ r.1.2.emits = s4.2.emits ∧ r.2 = .ret ret := by
+  intro s3 ret s4 r
+  have hr : r = runStep O C s ctx (some sc) := rfl
+  simp only [runStep, hn, h1, h2, Bool.not_true, Bool.false_eq_true, if_false, hthr] at hr
+  rw [hr]
+  exact ⟨rfl, rfl, rfl⟩
+theorem fallbackStep_keeps (s : St σo σc) (ctx : CallerCtx) (runSc : Option Script) (err : ErrV) (fb : Option Script) :
+    (fallbackStep s ctx runSc err fb).1.1.isOpen = s.1.isOpen ∧
+    ∀ e ∈ s.2.emits, e ∈ (fallbackStep s ctx runSc err fb).1.2.emits := by
+  unfold fallbackStep
+  cases fb with
+  | none => exact ⟨rfl, fun e h => h⟩
+  | some sc =>
+    simp only
+    split
+    · exact ⟨rfl, fun e h => h⟩
+    · split
+      · exact ⟨rfl, fun e h => List.mem_append_left _ h⟩
+      · split
+        · exact ⟨rfl, fun e h => h⟩
+        · split
+          · exact ⟨rfl, fun e h => List.mem_append_left _ h⟩
+          · exact ⟨rfl, fun e h => List.mem_append_left _ h⟩
+
+theorem execute_keeps (c : Circ σo σc) (ctx : CallerCtx) (run fb : Option Script) (hen : c.cfg.disabled = false) :
+    (execute O C c ctx run fb).1.isOpen = (runStep O C (c, {}) ctx run).1.1.isOpen ∧
+    ∀ e ∈ (runStep O C (c, {}) ctx run).1.2.emits, e ∈ (execute O C c ctx run fb).2.1.emits := by
+  unfold execute
+  simp only [hen, Bool.false_eq_true, if_false]
+  generalize runStep O C (c, {}) ctx run = p
+  obtain ⟨s, r⟩ := p
+  cases r with
+  | ret e =>
+    cases e with
+    | none => exact ⟨rfl, fun e h => h⟩
+    | some e =>
+      simp only
+      split
+      · exact ⟨rfl, fun e h => h⟩
+      · exact fallbackStep_keeps s ctx run e fb
+  | panic v => exact ⟨rfl, fun e h => h⟩
+  | nilFunc => exact ⟨rfl, fun e h => h⟩
+
+theorem classKind_eq (cfg : LiveCfg) (op : ExecOp) (sc : Script) (clock : Int) (hrun : op.run = some sc) :
+    classKind cfg op.ctx sc (actValue sc (ctxErrAfter op.ctx sc)) clock (clock + 1 + sc.adv + 1)
+      = expectedExecutedKind cfg op sc := by
+  have hv : runValue op = actValue sc (ctxErrAfter op.ctx sc) := by simp only [runValue, hrun]
+  unfold classKind expectedExecutedKind
+  simp only [hv]
+  have ht : (cfg.timeout > 0 ∧ clock + cfg.timeout < clock + 1 + sc.adv + 1) ↔ timedOut cfg sc = true := by
+    unfold timedOut
+    rw [decide_eq_true_iff]
+    constructor
+    · intro h; exact ⟨h.1, by omega⟩
+    · intro h; exact ⟨h.1, by omega⟩
+  simp only [ht]
+  rfl
+
+/-- C02, circuit level -/
+theorem opens_core (c : Circ σo σc) (op : ExecOp) (sc : Script)
+    (hen : c.cfg.disabled = false) (hfo : c.cfg.forceOpen = false) (hfc : c.cfg.forcedClosed = false)
+    (hclosed : c.isOpen = false) (hrun : op.run = some sc) (hnp : ∀ v, sc.act ≠ .panic v)
+    (hpv : O.prevent c.opener c.clock = (c.opener, false))
+    (hthr : ¬ (c.cfg.maxConc ≥ 0 ∧ c.conc + 1 > c.cfg.maxConc)) :
+    ((execute O C c op.ctx op.run op.fb).1.isOpen = true ↔
+      ((expectedExecutedKind c.cfg op sc = .failure ∨ expectedExecutedKind c.cfg op sc = .timeout) ∧
+        (O.shouldOpen (O.onRun c.opener (expectedExecutedKind c.cfg op sc) (c.clock + 1 + sc.adv + 1) (sc.adv + 1))
+          (c.clock + 1 + sc.adv + 1)).2 = true)) ∧
+    ((execute O C c op.ctx op.run op.fb).1.isOpen = true →
+      Emit.opened (c.clock + 1 + sc.adv + 1) ∈ (execute O C c op.ctx op.run op.fb).2.1.emits) := by
+  obtain ⟨x1, x2⟩ := execute_keeps O C c op.ctx op.run op.fb hen
+  rw [hrun] at x1 x2 ⊢
+  let s1 : St σo σc := ({ c with clock := c.clock + 1 }, { readings := [] ++ [c.clock] })
+  have h1 : allowNewRun C s1 c.clock = (s1, true) := by
+    have he : isOpenEff s1.1 = false := by rw [isOpenEff_eq s1.1 hfo hfc]; exact hclosed
+    simp only [allowNewRun, he, Bool.not_false, if_true]
+  obtain ⟨y1, y2, _⟩ := runStep_allowed_gen O C (c, {}) s1 c.clock c.opener op.ctx sc rfl h1 hpv hthr hnp
+  obtain ⟨z1, z2⟩ := classify_spec O C
+    (({ s1.1 with opener := c.opener, conc := s1.1.conc + 1, clock := s1.1.clock + sc.adv },
+      { s1.2 with runSeen := some (derivedSeen s1.1.cfg op.ctx c.clock) }) : St σo σc)
+    op.ctx sc (actValue sc (ctxErrAfter op.ctx sc)) c.clock hfo hfc hclosed
+  simp only at y1 y2 z1 z2
+  have ht : c.clock + 1 + sc.adv - c.clock = sc.adv + 1 := by omega
+  rw [← y1, ← x1, ht] at z1
+  rw [← y1, ← x1, ← y2] at z2
+  have hk := classKind_eq c.cfg op sc c.clock hrun
+  refine ⟨?_, fun h => x2 _ (z2 h)⟩
+  rw [← hk]
+  exact z1
+end
 end CM
